@@ -111,7 +111,18 @@ def evaluate__parenthesized_expression(self: XPathToken, context: ta.ContextType
             if any(x.symbol == '?' and not x for x in tokens):
                 func.check_arguments_number(len(tokens))
                 func = copy(func)
-                func[:] = tokens
+                # the new function item owns its argument list, the fixed
+                # arguments are evaluated now, in the scope of the application
+                args = iter([
+                    tk if tk.symbol == '?' and not tk else
+                    ValueToken(self.parser, value=tk.evaluate(context)) for tk in tokens
+                ])
+                if func.label in ('partial function', 'inline partial function'):
+                    # the new arguments fill the placeholders of the partial function
+                    func._items = [next(args) if tk.symbol == '?' and not tk else tk
+                                   for tk in func]
+                else:
+                    func._items = list(args)
                 func.to_partial_function()
                 return func
 
